@@ -48,6 +48,11 @@ add("C12", "runtime monitor: reference map model stepped in lock-step with a rea
     "Expiry is judged outside +-1 s of timestamp+validity and 'gone' only after an explicit maintenance pass that followed both the expiry and the add; outcomes on expired-but-uncollected objects are accepted either way; registration follows the LDM's own responses.",
     "DESIGN.md 3/C12")
 
+add("C13", "runtime monitor: brute-force predicate evaluator and side-by-side Dictionary/TinyDB back-ends behind the real IF.LDM.4",
+    "Exploration: two real LDMs (Dictionary and TinyDB in a temp dir) receive the same history of 0..60 CAM/DENM/VAM/POI/CPM dictionaries (with and without optional containers) plus deletions; requests over every dotted dict path occurring in the store, all 8 operators, matching / off-by-one / wrong-typed / absent reference values, and/or, all type selections and 0..3 order keys with mixed directions are answered by both through request_data_objects and compared with an independent evaluator (set equality, order by key tuple with per-key direction, ties free) and with each other.",
+    "Dotted paths address dictionaries only; order attributes are chosen among attributes present in every selected object; tuple/list differences from JSON storage are normalised.",
+    "DESIGN.md 3/C13")
+
 NOT_YET = "check not built yet (work in progress; runtime monitor planned in DESIGN.md section 3)"
 
 def main():
